@@ -93,7 +93,8 @@ func (mv *MessageView) SnapshotRequest(req *http.Request) error {
 		fmt.Fprintf(buf, "Content-Length: %d\r\n", req.ContentLength)
 	}
 
-	mv.compress = req.Header.Get("Content-Encoding")
+	// Content codings are case-insensitive.
+	mv.compress = strings.ToLower(req.Header.Get("Content-Encoding"))
 
 	req.Header.WriteSubset(buf, map[string]bool{
 		"Host":              true,
@@ -159,7 +160,8 @@ func (mv *MessageView) SnapshotResponse(res *http.Response) error {
 		fmt.Fprintf(buf, "Content-Length: %d\r\n", res.ContentLength)
 	}
 
-	mv.compress = res.Header.Get("Content-Encoding")
+	// Content codings are case-insensitive.
+	mv.compress = strings.ToLower(res.Header.Get("Content-Encoding"))
 	// Do not uncompress if we have don't have the full contents.
 	if res.StatusCode == http.StatusNoContent || res.StatusCode == http.StatusPartialContent {
 		mv.compress = ""
